@@ -13,7 +13,7 @@ ERRNOS = {
     "fchown": ["EPERM"], "fsetxattr": ["ENOSPC"], "flistxattr": ["EIO"], "fgetxattr": ["EIO"],
 }
 TOLERATED = {"fchown", "fsetxattr", "flistxattr", "fgetxattr"}       # documented warnings (C04 statement)
-TRACE = ",".join(sorted(set(ERRNOS) | {"write", "pwrite64", "close", "fdatasync"}))
+TRACE = ",".join(sorted(set(ERRNOS) | {"write", "pwrite64", "close", "fdatasync"}))     # read/pread64 are added per run when injected
 
 def scenario(extra=None, name="all-ops", backup=True, old=False):
     def data(n, salt):
@@ -128,7 +128,9 @@ def run(ctx):
                 "OVRNP": scenario(extra=["--no-progress"], name="all-ops-overwrite-noprogress", backup=False, old=True),
                 "RND": scenario(extra=neutral, name="all-ops-" + "".join(neutral).replace("-", "")),
                 # every clone request answered with success (hook): the files are finished on the reflink path of both drivers
-                "CLONE": scenario(name="all-ops-cloned")}
+                "CLONE": scenario(name="all-ops-cloned"),
+                # the in-kernel copy answered EXDEV (hook): every byte goes through the user-space read/write fallback, whose calls fail in turn
+                "USPACE": scenario(name="all-ops-uspace")}
     ctx.notes["variant RND"] = neutral
     for vn in variants:
         for drv in ("parfile", "parblock"):
@@ -139,6 +141,10 @@ def run(ctx):
                     idx = idx[:4] + rnd.sample(idx[4:], min(len(idx[4:]), 2))
                 for when in idx:
                     jobs.append((drv, 2, sysc, ERRNOS[sysc][when % len(ERRNOS[sysc])], when, "VAR:" + vn))
+            if vn == "USPACE":
+                for sysc in ("read", "pread64", "write", "pwrite64"):
+                    for when in range(1, (10 if quick else 40) + 1):
+                        jobs.append((drv, 2, sysc, ["EIO", "ENOSPC"][when % 2] if "write" in sysc else "EIO", when, "VAR:USPACE"))
     # third: one single-block file, every finalisation call of one kind failing, repeated: whichever thread ends up
     # holding the last reference to the handle has to report the failure
     sc_one = scenario_one()
@@ -156,7 +162,7 @@ def run(ctx):
         rid = "c04-%s-w%d-%s-%s-%d%s" % (drv, w, sysc, err, when, "-" + plan.replace("=", "") if plan else "")
         the_sc = sc_own if plan == "OWN" else (sc_one if plan and plan.startswith("ONE") else (variants[plan[4:]] if plan and plan.startswith("VAR:") else sc))
         only = plan[4:] if plan and plan.startswith("OBJ:") else None
-        env = {"XCP_VERIF_PLAN": plan} if plan and plan.startswith("cfr") else ({"XCP_VERIF_PLAN": "clone=emulate"} if plan == "VAR:CLONE" else None)
+        env = {"XCP_VERIF_PLAN": plan} if plan and plan.startswith("cfr") else ({"XCP_VERIF_PLAN": "clone=emulate"} if plan == "VAR:CLONE" else ({"XCP_VERIF_PLAN": "cfr.errno=18"} if plan == "VAR:USPACE" else None))
         inj_spec = "%s:error=%s:when=%d" % (sysc, err, when) if when > 0 else "%s:error=%s" % (sysc, err)
         rid = rid.replace("/", "_").replace(":", "")
         root_guess = os.path.join(scratch(), "ns-%s" % rid)
